@@ -56,7 +56,8 @@ def cases(draw):
     comp = draw(st.sampled_from([None, None, {"sym": "SX"}, {"sym": "MX"}]))
     if comp:
         comp = dict(comp, compact=draw(st.integers(0, 2)))
-    return {"spec": sp, "twin": tw, "state": state, "compile": comp}
+    # additionally rescale the turn rates of the already stepped original network in place and step it again
+    return {"spec": sp, "twin": tw, "state": state, "compile": comp, "inplace": draw(st.integers(0, 2)) == 0}
 
 
 def strategy(tier):
@@ -115,6 +116,20 @@ def check_case(case, ctx):
             l = next((l for l in sp["links"] if l["id"] == i), None)
             pos = "" if l is None else ("first" if k == 0 else "last" if k == l["N"] - 1 else "interior")
             ctx.fail(f"{eng}:{why}:{var}:{pos}", f"{eng}: {var}+ of {i}[{k}] = {y!r} in the original network but {x!r} in the reordered/renamed/rescaled twin")
+        if c is None and case.get("inplace"):
+            ctx.label("rescaled-in-place")
+            r0 = guarded(ctx, "inplace:first-step", S.step_numpy, sp, state)
+            if not crashed(r0):
+                built = r0[1]
+                for l in sp["links"]:
+                    el = built[1][l["id"]]
+                    el.turnrate = el.turnrate * tw["factors"][l["up"]]
+                r1 = guarded(ctx, "inplace:second-step", S.step_numpy, sp, state, None, None, built)
+                if not crashed(r1):
+                    bad, _fin = refmodel.compare_pair(r1[0], a, scales, fallback=True)
+                    for (i, var, k, x, y, sc, why) in bad:
+                        ctx.fail(f"inplace:{why}:{var}", f"numpy: {var}+ of {i}[{k}] = {y!r}, but {x!r} when the same network is stepped again after "
+                                 f"multiplying the turn rates of the links leaving each node by a common factor in place")
         if c is None:
             # inflow share at bifurcations, from the step's own outputs
             T = sp["pars"]["T"]
